@@ -51,6 +51,11 @@ def install(sim, fs=None):
     # dulprovider.socket is only used for `socket.error` (== OSError): left alone on purpose,
     # but a repair might create sockets there, so give it the factory too.
     patch(dulprovider, 'socket', sns)
+    # server AEs: the listening socket is a stub (never bound; the simulator's listener table
+    # plays accept()).  StorageAE offers no bind_and_activate switch, hence the patch.
+    import socketserver
+    patch(socketserver.TCPServer, 'server_bind', lambda self: None)
+    patch(socketserver.TCPServer, 'server_activate', lambda self: None)
     if fs is not None:
         patch(applicationentity, 'tempfile', fs.tempfile_ns())
         patch(pynetdicom2, 'open', fs.open)
